@@ -186,6 +186,17 @@ struct MaskProblemT : alpaqa::BoxConstrProblem<config_t> {
 };
 using MaskProblem = MaskProblemT<true>;
 
+// (M) multiple inheritance: the class that declares the interface members is NOT at offset 0 of the erased object.  The first base holds
+// a complete problem with DIFFERENT data, so a call that reaches the members with an unadjusted `this` computes that other problem.
+struct DecoyBase {
+    MaskProblemT<false> other;
+    DecoyBase(std::shared_ptr<const Data> d2) : other{std::move(d2), 0x1ffu, std::make_shared<LogT>()} {}
+};
+struct MIProblem : DecoyBase, MaskProblemT<false> {
+    MIProblem(std::shared_ptr<const Data> d2, std::shared_ptr<const Data> d, unsigned mask, std::shared_ptr<LogT> log)
+        : DecoyBase{std::move(d2)}, MaskProblemT<false>{std::move(d), mask, std::move(log)} {}
+};
+
 using TEP = alpaqa::TypeErasedProblem<config_t>;
 
 struct In {
@@ -335,6 +346,23 @@ int main() {
                 TEP p{pc};
                 j.i("E_provides", provides_bits(p)).b("E_supports_hess_psi_prod", p.supports_eval_hess_ψ_prod());
                 j.raw("E", run_route(p, in, *log, n, m, Basic{d}));
+            }
+            // (M) the same class as (G) as the second base of the erased type, (N) the same through ProblemWithCounters
+            {
+                auto d2 = std::make_shared<Data>(*d);
+                d2->c = d2->c.array() + 1; d2->b = d2->b.array() - 1;
+                d2->lb = d2->lb.array() - 5; d2->ub = d2->ub.array() + 5;
+                {
+                    TEP p{TEP::make<MIProblem>(d2, d, mask, log)};
+                    j.i("M_provides", provides_bits(p)).b("M_supports_hess_psi_prod", p.supports_eval_hess_ψ_prod());
+                    j.raw("M", run_route(p, in, *log, n, m, Basic{d}));
+                }
+                {
+                    alpaqa::ProblemWithCounters<MIProblem> pc{std::in_place, d2, d, mask, log};
+                    TEP p{pc};
+                    j.i("N_provides", provides_bits(p)).b("N_supports_hess_psi_prod", p.supports_eval_hess_ψ_prod());
+                    j.raw("N", run_route(p, in, *log, n, m, Basic{d}));
+                }
             }
             // (F) FunctionalProblem: only basic functions (+ optional Hessian products)
             if ((mask & 0x7fu) == 0) {
